@@ -375,6 +375,11 @@ func (s *Seq) opCollect(op *Op) {
 		s.heldDelete(h, ctx)
 		return
 	}
+	if (h.step+op.Slot)%3 == 0 {
+		// a search is a value: looking at it does not consume it
+		h.s.One()
+		s.stat("probe:held-looked-at-before-collect")
+	}
 	switch op.Mode {
 	case "assign":
 		var out []*shapes.Rec
